@@ -79,7 +79,7 @@ func genC12(t *rapid.T) c12Case {
 	n := rapid.IntRange(1, 3).Draw(t, "npaths")
 	for i := 0; i < n; i++ {
 		choices := []string{"build-again", "build-again", "concurrent"}
-		choices = append(choices, "build-memlimit")
+		choices = append(choices, "build-memlimit", "relatives", "relatives")
 		if cliPath() != "" {
 			// fresh processes under different runtime settings a deployment may impose
 			choices = append(choices, "cli-r1cs:1", "cli-r1cs:2", "cli-r1cs:3", "cli-r1cs:16", "cli-r1cs:4:GOMEMLIMIT=4GiB", "cli-r1cs:8:GOGC=25", "cli-r1cs:2:GOGC=off:GOMEMLIMIT=8GiB")
@@ -113,6 +113,58 @@ func runC12(c c12Case) Result {
 			}
 			if pub := cs.GetNbPublicVariables(); pub != 2 { // the constant wire + the input hash
 				return bad(class, "Circuit:public-input-count", "%s has %d public variables (constant wire included), want exactly the input hash", triple, pub)
+			}
+			if dg, n, err = csDigest(cs); err != nil {
+				return bad(class, "harness:serialise", "%v", err)
+			}
+		case "relatives":
+			// state carried between builds inside one process: the other mode at the same dimensions, the same mode at
+			// another batch size and at another depth are built first (anything memoised under too small a key - dimensions
+			// without the mode, batch without depth - would now hold THEIR system), each must differ from this triple's
+			// system, and this triple is then built again
+			type rel struct {
+				mode         string
+				depth, batch int
+			}
+			other := "deletion"
+			if c.Mode == "deletion" {
+				other = "insertion"
+			}
+			rels := []rel{}
+			if !(other == "deletion" && c.Depth > 31) {
+				rels = append(rels, rel{other, c.Depth, c.Batch})
+			}
+			rels = append(rels, rel{c.Mode, c.Depth, c.Batch%3 + 1})
+			rels = append(rels, rel{c.Mode, c.Depth%3 + 1, c.Batch})
+			for _, rl := range rels {
+				if rl.mode == c.Mode && rl.depth == c.Depth && rl.batch == c.Batch {
+					continue
+				}
+				rcs, err := buildR1CS(rl.mode, rl.depth, rl.batch)
+				if err != nil {
+					return bad(class, "BuildR1CS:error", "%s/%d/%d: %v", rl.mode, rl.depth, rl.batch, err)
+				}
+				rdg, _, err := csDigest(rcs)
+				if err != nil {
+					return bad(class, "harness:serialise", "%v", err)
+				}
+				rt := fmt.Sprintf("%s/%d/%d", rl.mode, rl.depth, rl.batch)
+				c12mu.Lock()
+				prev, seen := c12digests[rdg]
+				if !seen {
+					c12digests[rdg] = rt
+				}
+				c12mu.Unlock()
+				if (seen && prev != rt) || rdg == ref0 {
+					if rdg == ref0 {
+						prev = triple
+					}
+					return bad(class, "ConstraintSystem:same-for-different-dimensions", "%s and %s compile to the same constraint system in one process", prev, rt)
+				}
+			}
+			cs, err := buildR1CS(c.Mode, c.Depth, c.Batch)
+			if err != nil {
+				return bad(class, "BuildR1CS:error", "%s (after relatives): %v", triple, err)
 			}
 			if dg, n, err = csDigest(cs); err != nil {
 				return bad(class, "harness:serialise", "%v", err)
